@@ -11,4 +11,4 @@ class Check(PropertyCheck):
     assumptions = ["E-funds, E-actors, E-names, E-zero-coin (DESIGN.md section 4.5)"]
 
     def families(self, rng, tier):
-        return [("world.router", fam_world.router_histories(rng, tier))]
+        return [("world.router", fam_world.router_histories(rng.sub("router_histories"), tier))]
